@@ -271,7 +271,15 @@ def impl(op, a):
     if op == 1612:
         t = uf.TransferFrameDataField.unpack(raw_tfdf=_buf(a[0]), truncated=bool(a[1][0]), exact_len=a[1][1],
                                              frame_type=_ft(a[1][2]))
-        return [_tfdf_fields(t), list(t.tfdz)]
+        out = [_tfdf_fields(t), list(t.tfdz)]
+        # a decoded data field is an ordinary data field: whenever it can be packed (same flags) its len() is the packed size
+        try:
+            n = len(t.pack(truncated=bool(a[1][0]), frame_type=_ft(a[1][2])))
+        except Exception:
+            n = None
+        if n is not None and n != t.len():
+            out.append([-1, n])          # (an extra row, present only when the statement fails)
+        return out
     if op == 1613:
         r, tr, ft = a[0]
         t = _tfdf([r, 0, 0, 0], [])
@@ -1130,6 +1138,13 @@ def oracle(case, ires, sres):
                 return ("C17/TransferFrameDataField.unpack/undocumented-error", "raw=%s truncated=%d exact_len=%d ft=%d -> %s" % (raw, tr, ex, ft, ires))
             return None
         r, i, has, fhp, size = ires[1]
+        # whatever exact_len says: the decoded field reports the size of what it holds (pointer + data zone as decoded),
+        # which is what it packs to
+        if len(ires) > 3 or size != (3 if has else 1) + len(ires[2]):
+            return ("C17/TransferFrameDataField.len/decoded-field",
+                    "raw=%s (%d octets) truncated=%d exact_len=%d ft=%d: the decoded data field holds a %d-octet header and a %d-octet "
+                    "data zone%s but len() = %d" % (raw[:24], len(raw), tr, ex, ft, 3 if has else 1, len(ires[2]),
+                                                    " and packs to %d octets" % ires[3][1] if len(ires) > 3 else "", size))
         if 1 <= ex <= len(raw):
             hl = 3 if has else 1
             if ex < hl:
